@@ -610,7 +610,10 @@ fn main() {
     let mut outcomes: BTreeMap<String, u64> = BTreeMap::new();
     let mut violations: Vec<Value> = Vec::new();
     let mut evaluations = 0u64;
-    let mut distinct = std::collections::HashSet::new();
+    // Distinct input vectors, by 64-bit hash; counting stops at a cap so that memory stays bounded
+    // in the thorough tier (the count is then a lower bound, reported as such).
+    const DISTINCT_CAP: usize = 3_000_000;
+    let mut distinct: std::collections::HashSet<u64> = std::collections::HashSet::new();
     let mut samples: Vec<Value> = Vec::new();
     let mut chain_checks = 0u64;
 
@@ -641,7 +644,12 @@ fn main() {
                 Outcome::Panic(_) => "panic".to_string(),
             };
             *outcomes.entry(okind).or_insert(0) += 1;
-            distinct.insert(v.line());
+            if distinct.len() < DISTINCT_CAP {
+                use std::hash::{Hash, Hasher};
+                let mut h = std::collections::hash_map::DefaultHasher::new();
+                (v.as_of, v.void_after, v.bound, v.drift, v.status, v.real, v.mono).hash(&mut h);
+                distinct.insert(h.finish());
+            }
             if let Some(f) = dump_file.as_mut() {
                 writeln!(f, "{} | {}", v.line(), o.line()).unwrap();
             }
@@ -680,7 +688,7 @@ fn main() {
     }
     drop(rig);
     let out = json!({
-        "evaluations": evaluations, "distinct": distinct.len(), "cells": cells, "outcomes": outcomes, "chain_checks": chain_checks,
+        "evaluations": evaluations, "distinct": distinct.len(), "distinct_capped": distinct.len() >= DISTINCT_CAP, "cells": cells, "outcomes": outcomes, "chain_checks": chain_checks,
         "violations": violations, "samples": samples, "virtual_clock_reads": clock::virtual_reads(), "blur_ns": blur,
         "wall_s": (clock::real_clock_ns(libc::CLOCK_MONOTONIC) - t0) as f64 / 1e9,
     });
